@@ -11,6 +11,7 @@ R15.1  context-sensitive taint: every hole of every emitted template is classifi
 R15.2  documentation blocks: values handed to DocumentationBlock(...) land in a docstring; render_docstring must escape
 R15.4  the sanitizers that are trusted in CODE positions (sanitize_method_name / _class_name / _module_name) produce
        valid identifiers for every input string                                              [abstract interpretation shared with C20]
+R15.5  json.dumps() used as a Python-literal maker for spec text passes ensure_ascii=False (non-BMP characters survive)
 R15.3  emitted code is never re-split with str.splitlines() outside docstring/comment assembly (splitlines also splits at
        U+2028, U+0085, FF, VT ..., which Python's tokenizer does not treat as line ends)
 """
@@ -542,6 +543,32 @@ def run(repo: Repo, rep: Report, tier: str) -> None:
         if f is None:
             raise AnalysisError(f"anchor vanished: NameSanitizer.{fname}")
         c20._shape_rule(f, c20.SANITIZERS[fname], _Relabel(rep, "R15.4"))
+
+    # ---------------------------------------------------------------- R15.5 literal makers keep non-BMP text intact
+    # json.dumps() with its default ensure_ascii=True writes an astral character as a surrogate *pair* (\\ud83d\\udd25); a Python string
+    # literal does not recombine the pair, so the emitted literal evaluates to two lone surrogates - a different (and un-encodable) string.
+    n_dumps = 0
+    for mn in mods:
+        mod = repo.modules[mn]
+        for fn in mod.functions.values():
+            ft5: Optional[FnTaint] = None
+            for c in calls_in(fn.node):
+                if dotted(c.func) != "json.dumps" or not c.args or _is_log_or_raise_context(c):
+                    continue
+                ft5 = ft5 or FnTaint(fn)
+                if not any(k == "taint" for k, _ in ft5.origins(c.args[0], STRING)):
+                    continue
+                n_dumps += 1
+                sub = f"{mod.relpath}:{fn.qualname} json.dumps(<spec text>) #{sum(1 for x in calls_in(fn.node) if dotted(x.func) == 'json.dumps' and x.lineno <= c.lineno)}"
+                ea = next((k.value for k in c.keywords if k.arg == "ensure_ascii"), None)
+                if isinstance(ea, ast.Constant) and ea.value is False:
+                    rep.ok("R15.5", sub, f"`{norm(c)[:60]}`: ensure_ascii=False, every character is written as itself", fn.loc(c))
+                else:
+                    rep.violation("R15.5", sub, f"{fn.fq}|dumps-ascii|{norm(c.args[0])[:30]}",
+                                  f"`{norm(c)[:60]}` turns spec text into a Python literal with JSON's ASCII escaping: a character outside the BMP becomes a "
+                                  "surrogate pair, which Python does not recombine - the literal no longer evaluates to the original string", fn.loc(c))
+    rep.count("R15.5:json_dumps_of_spec_text", n_dumps)
+    rep.require(n_dumps >= 6, f"R15.5: only {n_dumps} json.dumps(<spec text>) literal makers found (floor 6)")
 
     # ---------------------------------------------------------------- R15.3 re-splitting of emitted code
     allowed_splitlines = {
